@@ -286,7 +286,7 @@ def base_names(base):
 def gen_e2e(chk, base, absdir, outside):
     rng = chk.rng
     names = names_upto(SEGS_E2E, 3)
-    targeted = ["../a", "../canary", "..//a", "dir/../../a", "dir/../../canary", "a/../../a", "./../a", "sub/../../dir/a", "....//a", "..;/a",
+    targeted = ["a", "dir/a", "canary", "sub/a", "d/a", "a.", "a..b", "d/d/a", "dir/sub/a", "../a", "../canary", "..//a", "dir/../../a", "dir/../../canary", "a/../../a", "./../a", "sub/../../dir/a", "....//a", "..;/a",
                 "%2e%2e/a", "..%2fa", "..\\..\\a", "..\\a", "‥/a", "．．/a", "․․/a", "..\0/a", "\0../a", "../base2/a", "../basea",
                 absdir + "/a", "/" + absdir + "/a", "//" + absdir.lstrip("/") + "/a", "dir/" + absdir + "/a"] + outside + \
                [os.path.relpath(o, base) for o in outside] + ["dir/" + os.path.relpath(o, os.path.join(base, "dir")) for o in outside] + \
